@@ -400,11 +400,11 @@ func (t *Task) writeAuditLogs(startTime time.Time, finishTime time.Time) {
 	for inpName, iip := range t.InIPs {
 		if t.portInfos[inpName].join {
 			for _, subIP := range t.subStreamIPs[inpName] {
-				auditInfo.Upstream[subIP.Path()] = subIP.AuditInfo()
+				auditInfo.Upstream[subIP.Path()] = subIP.auditInfoSnapshot()
 			}
 			continue
 		}
-		auditInfo.Upstream[iip.Path()] = iip.AuditInfo()
+		auditInfo.Upstream[iip.Path()] = iip.auditInfoSnapshot()
 	}
 	// Add output paths generated for this task
 	for oipName, oip := range t.OutIPs {
@@ -412,7 +412,11 @@ func (t *Task) writeAuditLogs(startTime time.Time, finishTime time.Time) {
 	}
 	// Add the current audit info to output ips and write them to file
 	for _, oip := range t.OutIPs {
-		oip.SetAuditInfo(auditInfo)
+		// Every out-IP gets its own copy (with its own tags), so that tags
+		// added to one output later do not show up on the others
+		oipAuditInfo := *auditInfo
+		oipAuditInfo.Tags = make(map[string]string)
+		oip.SetAuditInfo(&oipAuditInfo)
 		for _, iip := range t.InIPs {
 			oip.AddTags(iip.Tags())
 		}
